@@ -158,6 +158,7 @@ func pkgShort(p *core.Program, fd *ast.FuncDecl) string {
 
 func c18r1(rc *core.RC) {
 	p := rc.P
+	trans := transformerFuncs(p)
 	// every call of compact / doIndent whose result is written to a caller-supplied *bytes.Buffer
 	for _, fd := range p.Funcs("encoder") {
 		if fd.Body == nil {
@@ -180,7 +181,7 @@ func c18r1(rc *core.RC) {
 				return true
 			}
 			cn := core.CalleeName(info, c)
-			if cn != "encoder.compact" && cn != "encoder.doIndent" {
+			if !trans[cn] {
 				return true
 			}
 			rc.CallSites++
@@ -197,10 +198,52 @@ func c18r1(rc *core.RC) {
 	}
 }
 
+// transformerFuncs: compact and doIndent, and every encoder function with an error result that calls one of them (a
+// wrapper that adds something to the transformer's output and hands its error on).
+func transformerFuncs(p *core.Program) map[string]bool {
+	set := map[string]bool{"encoder.compact": true, "encoder.doIndent": true}
+	for changed := true; changed; {
+		changed = false
+		for _, fd := range p.Funcs("encoder") {
+			if fd.Body == nil || fd.Recv != nil || fd.Type.Results == nil {
+				continue
+			}
+			name := "encoder." + fd.Name.Name
+			if set[name] {
+				continue
+			}
+			info := p.Info(fd)
+			res := fd.Type.Results.List
+			if len(res) < 2 {
+				continue
+			}
+			if t := info.TypeOf(res[len(res)-1].Type); t == nil || t.String() != "error" {
+				continue
+			}
+			if t := info.TypeOf(res[0].Type); t == nil || t.String() != "[]byte" {
+				continue
+			}
+			calls := false
+			ast.Inspect(fd.Body, func(n ast.Node) bool {
+				if c, ok := n.(*ast.CallExpr); ok && set[core.CalleeName(info, c)] {
+					calls = true
+				}
+				return true
+			})
+			if calls {
+				set[name] = true
+				changed = true
+			}
+		}
+	}
+	return set
+}
+
 // ---- C18.R2 write only after success ----
 
 func c18r2(rc *core.RC) {
 	p := rc.P
+	trans := transformerFuncs(p)
 	n := 0
 	for _, fd := range p.Funcs("encoder") {
 		if fd.Body == nil || !scannerFiles[p.FileBase(fd.Pos())] {
@@ -237,7 +280,7 @@ func c18r2(rc *core.RC) {
 					return true
 				}
 				tn := core.CalleeName(info, tc)
-				if tn != "encoder.compact" && tn != "encoder.doIndent" {
+				if !trans[tn] {
 					return true
 				}
 				errObj := core.ObjOf(info, as.Lhs[len(as.Lhs)-1])
@@ -247,13 +290,33 @@ func c18r2(rc *core.RC) {
 						return true
 					}
 					be, ok := core.Unparen(ifs.Cond).(*ast.BinaryExpr)
-					if !ok || be.Op != token.NEQ || core.ObjOf(info, be.X) != errObj || !core.IsNilIdent(info, be.Y) {
+					if !ok || (be.Op != token.NEQ && be.Op != token.EQL) || core.ObjOf(info, be.X) != errObj || !core.IsNilIdent(info, be.Y) {
 						return true
 					}
 					gb, _ := cf.BlockOf(ifs.Cond)
 					tb, _ := core.IfEdges(gb)
-					if gb != nil && wb != nil && cf.Dominates(gb, wb) && tb != nil && cf.AllPathsReturnError(tb, nil) && !(ifs.Body.Pos() <= w.Pos() && w.End() <= ifs.Body.End()) {
-						good = true
+					inBody := ifs.Body.Pos() <= w.Pos() && w.End() <= ifs.Body.End()
+					if be.Op == token.NEQ {
+						// `if err != nil { return err }` in front of the write
+						if gb != nil && wb != nil && cf.Dominates(gb, wb) && tb != nil && cf.AllPathsReturnError(tb, nil) && !inBody {
+							good = true
+						}
+					} else if inBody {
+						// `if err == nil { …Write… }`, with no assignment to err between the transformer and the test
+						reassigned := false
+						ast.Inspect(fd.Body, func(q ast.Node) bool {
+							if a2, isAs := q.(*ast.AssignStmt); isAs && a2 != as && a2.Pos() > as.End() && a2.End() < ifs.Pos() {
+								for _, l := range a2.Lhs {
+									if core.ObjOf(info, l) == errObj {
+										reassigned = true
+									}
+								}
+							}
+							return true
+						})
+						if !reassigned {
+							good = true
+						}
 					}
 					return true
 				})
@@ -532,6 +595,21 @@ func c18r8(rc *core.RC) {
 		rc.Bad(key, fd.Pos(), "Valid uses Decoder.More as its end-of-input test: More is false in front of a closing bracket and at a NUL byte, so {}}, []], `1 ]` and \"1\\x00\" are reported valid")
 		return
 	}
+	// a library trimmer in place of the loop: its notion of white space is Unicode's, not JSON's
+	trimmer := ""
+	ast.Inspect(fd.Body, func(m ast.Node) bool {
+		if c, ok := m.(*ast.CallExpr); ok {
+			switch name := core.CalleeName(info, c); name {
+			case "bytes.TrimSpace", "strings.TrimSpace", "bytes.TrimFunc", "bytes.TrimLeftFunc", "bytes.TrimRightFunc", "unicode.IsSpace", "bytes.Fields", "strings.Fields":
+				trimmer = name
+			}
+		}
+		return true
+	})
+	if trimmer != "" {
+		rc.Bad(key, fd.Pos(), "the bytes that follow the value are judged by %s, which takes Unicode white space (\\v, \\f, U+0085, U+00A0, U+2028, U+3000 …) for blank: JSON allows only space, tab, LF and CR after a value, so `1\\v` and `{}` followed by U+00A0 are reported valid", trimmer)
+		return
+	}
 	if loop == nil {
 		rc.Bad(key, fd.Pos(), "no loop over the bytes that follow the decoded value")
 		return
@@ -581,28 +659,57 @@ func c18r8(rc *core.RC) {
 func c18r9(rc *core.RC) {
 	p := rc.P
 	n := 0
+	hasWrite := func(fd *ast.FuncDecl, after token.Pos) bool {
+		info := p.Info(fd)
+		found := false
+		ast.Inspect(fd.Body, func(m ast.Node) bool {
+			if c, ok := m.(*ast.CallExpr); ok && strings.HasSuffix(core.CalleeName(info, c), "bytes.Buffer.Write") && c.Pos() > after {
+				found = true
+			}
+			return true
+		})
+		return found
+	}
 	for _, fd := range p.Funcs("encoder") {
 		if fd.Body == nil || p.FileBase(fd.Pos()) != "indent.go" {
 			continue
 		}
 		info := p.Info(fd)
-		var indentCall, write ast.Node
+		var indentCall ast.Node
 		var src types.Object
 		ast.Inspect(fd.Body, func(m ast.Node) bool {
 			c, ok := m.(*ast.CallExpr)
 			if !ok {
 				return true
 			}
-			switch name := core.CalleeName(info, c); {
-			case name == "encoder.doIndent" && len(c.Args) >= 2:
+			if core.CalleeName(info, c) == "encoder.doIndent" && len(c.Args) >= 2 {
 				indentCall = c
 				src = core.ObjOf(info, c.Args[1])
-			case strings.HasSuffix(name, "bytes.Buffer.Write"):
-				write = c
 			}
 			return true
 		})
-		if indentCall == nil || write == nil || src == nil {
+		if indentCall == nil || src == nil {
+			continue
+		}
+		// the output reaches the caller's buffer: written here after the call, or by a function that calls this one
+		// and writes afterwards
+		writes := hasWrite(fd, indentCall.Pos())
+		if !writes {
+			self := "encoder." + fd.Name.Name
+			for _, caller := range p.Funcs("encoder") {
+				if caller.Body == nil || caller == fd {
+					continue
+				}
+				cinfo := p.Info(caller)
+				ast.Inspect(caller.Body, func(m ast.Node) bool {
+					if c, ok := m.(*ast.CallExpr); ok && core.CalleeName(cinfo, c) == self && hasWrite(caller, c.Pos()) {
+						writes = true
+					}
+					return true
+				})
+			}
+		}
+		if !writes {
 			continue
 		}
 		n++
@@ -614,15 +721,15 @@ func c18r9(rc *core.RC) {
 			if !ok || !core.IsBuiltin(info, c, "append") || len(c.Args) != 2 || !c.Ellipsis.IsValid() {
 				return true
 			}
-			if sl, ok := core.Unparen(c.Args[1]).(*ast.SliceExpr); ok && core.ObjOf(info, sl.X) == src && c.Pos() > indentCall.Pos() && c.Pos() < write.Pos() {
+			if sl, ok := core.Unparen(c.Args[1]).(*ast.SliceExpr); ok && core.ObjOf(info, sl.X) == src && c.Pos() > indentCall.Pos() {
 				copied = true
 			}
 			return true
 		})
-		rc.Check(copied, fn+"/trailing-white-space-copied", indentCall.Pos(), "between doIndent and the Write a slice of the source (the white space after the value) is appended to the output")
+		rc.Check(copied, fn+"/trailing-white-space-copied", indentCall.Pos(), "after doIndent, before its output is written to the caller's buffer, a slice of the source (the white space after the value) is appended to the output")
 	}
 	if n < 1 {
-		rc.Unknown("encoder/indent-and-write", token.NoPos, "no function that calls doIndent and writes to the caller's buffer found")
+		rc.Unknown("encoder/indent-and-write", token.NoPos, "no function that calls doIndent and whose output is written to the caller's buffer found")
 	}
 }
 
@@ -1035,4 +1142,74 @@ func c18r8source(rc *core.RC, fd *ast.FuncDecl, info *types.Info, loop ast.Stmt)
 		return true
 	})
 	rc.Check(fromOffset, key, rs.Pos(), "the trailing loop ranges over the parameter from Decoder.InputOffset() to its end (%s): every byte behind the value is examined, read or not, behind a NUL or not", core.Src(p.Fset, rs.X))
+}
+
+// ---- C18.R13 an object key is scanned by the string scanner ----
+
+// In the object walkers of compact.go and indent.go the member key is whatever is scanned in front of the ':' test.
+// RFC 8259 allows a string there and nothing else: the scanner call that precedes the colon test has to be
+// compactString. The general value scanner accepts numbers, literals, arrays and objects in key position, and
+// `{1:"a"}` returned by a MarshalJSON method passes through MarshalIndent.
+func c18r13(rc *core.RC) {
+	p := rc.P
+	n := 0
+	for _, fd := range p.Funcs("encoder") {
+		if fd.Body == nil || !strings.HasSuffix(fd.Name.Name, "Object") {
+			continue
+		}
+		base := p.FileBase(fd.Pos())
+		if base != "compact.go" && base != "indent.go" {
+			continue
+		}
+		info := p.Info(fd)
+		fn := p.FuncName(fd)
+		ast.Inspect(fd.Body, func(m ast.Node) bool {
+			blk, ok := m.(*ast.BlockStmt)
+			if !ok {
+				return true
+			}
+			for i, st := range blk.List {
+				ifs, isIf := st.(*ast.IfStmt)
+				if !isIf {
+					continue
+				}
+				colon := false
+				ast.Inspect(ifs.Cond, func(k ast.Node) bool {
+					if be, isBin := k.(*ast.BinaryExpr); isBin && (be.Op == token.NEQ || be.Op == token.EQL) {
+						if v, isC := core.ConstInt(info, be.Y); isC && v == ':' {
+							colon = true
+						}
+					}
+					return true
+				})
+				if !colon {
+					continue
+				}
+				// the nearest scanner call before the test
+				scanner := ""
+				var pos token.Pos
+				for j := i - 1; j >= 0 && scanner == ""; j-- {
+					as, isAs := blk.List[j].(*ast.AssignStmt)
+					if !isAs || len(as.Rhs) != 1 || len(as.Lhs) != 3 {
+						continue
+					}
+					if c, isCall := core.Unparen(as.Rhs[0]).(*ast.CallExpr); isCall {
+						scanner, pos = core.CalleeName(info, c), c.Pos()
+					}
+				}
+				n++
+				rc.Touch(fn)
+				key := fn + "/member-key scanned-as-a-string"
+				if scanner == "" {
+					rc.Unknown(key, ifs.Pos(), "no scanner call found in front of the colon test")
+					continue
+				}
+				rc.Check(scanner == "encoder.compactString", key, pos, "what stands in front of the ':' of a member is scanned by compactString (found: %s): a general value scanner accepts numbers, literals and containers as keys", scanner)
+			}
+			return true
+		})
+	}
+	if n < 2 {
+		rc.Unknown("encoder/object-walkers", token.NoPos, "found %d colon tests in compactObject/indentObject (confirmed: 2)", n)
+	}
 }
